@@ -52,7 +52,9 @@ ConcatCases ==
   << C("concat", <<L(Abc), L(<<"-">>), L(Polish)>>), C("concat", <<L(Abc)>>), C("concat", <<L(<<"x"," ">>), L(Abc), L(<<"!">>), L(Abc)>>),
      C("concat_ws", <<L(<<"-">>), L(Abc), L(<<"d">>), L(<<"e">>)>>), C("concat_ws", <<L(<<",", " ">>), L(Abc), L(Polish)>>),
      C("coalesce", <<L(Abc), L(<<"z">>)>>), C("coalesce", <<L(Empty), L(<<"z">>)>>), C("coalesce", <<L(Empty), L(Empty), L(Abc)>>),
-     C("coalesce", <<C("substr", <<L(Abc), Num(D(9))>>), L(<<"d","f","l","t">>)>>) >>
+     C("coalesce", <<C("substr", <<L(Abc), Num(D(9))>>), L(<<"d","f","l","t">>)>>),
+     \* (text that consists of blanks is not empty)
+     C("coalesce", <<L(<<" ">>), L(<<"z">>)>>), C("coalesce", <<L(Empty), L(<<" ", " ">>), L(Abc)>>), C("length", <<C("coalesce", <<L(<<" ", " ">>), L(Abc)>>)>>) >>
 Nums == <<D(0), D(1), D(5), D(8), D(255), D(1024), D(65535)>>
 NumCases ==
   Unary("bin", Nums) \o Unary("hex", Nums) \o Unary("oct", Nums)
